@@ -445,4 +445,79 @@ theorem equal1_spec (s : St) (z : Nat) (hz : OWF (s.h z)) : equal1 s z = (decide
     · have : ((s.SIZ z) == 1) = false := by simpa [St.SIZ] using hsz
       rw [this]; simp
 
+
+theorem objWrite_alloc (s : St) (w req : Nat) (z : Int) :
+    ((objWrite s w req z).h w).buf.alloc = ((MPZ_REALLOC s w req).h w).buf.alloc := by
+  simp [objWrite]
+
+theorem mpz_divexact_gcd_alloc_keep (s : St) (q a d : Nat) (hd0 : (s.h d).size ≠ 0) (hroom : s.ABSIZ a ≤ s.ALLOC q) :
+    ((mpz_divexact_gcd s q a d).h q).buf.alloc = (s.h q).buf.alloc := by
+  unfold mpz_divexact_gcd
+  by_cases h0 : (s.SIZ a == 0) = true
+  · rw [if_pos h0]; simp
+  · rw [if_neg h0]
+    have h0' : (s.h a).size ≠ 0 := by simpa [St.SIZ] using h0
+    rw [objWrite_alloc, MPZ_REALLOC_noop _ _ _ (by
+      have : 1 ≤ s.ABSIZ d := by simp only [St.ABSIZ]; omega
+      have : 1 ≤ s.ABSIZ a := by simp only [St.ABSIZ]; omega
+      by_cases hc : (s.SIZ d == 1) = true
+      · rw [if_pos hc]; exact hroom
+      · rw [if_neg hc]; omega)]
+
+theorem mpz_gcd_alloc_keep (s : St) (g u v : Nat)
+    (h : (natLimbs (Int.gcd (valOf s u) (valOf s v))).length ≤ s.ALLOC g) :
+    ((mpz_gcd s g u v).h g).buf.alloc = (s.h g).buf.alloc := by
+  unfold mpz_gcd
+  rw [objWrite_alloc, MPZ_REALLOC_noop _ _ _ (by simpa using h)]
+
+theorem mulTail_alloc (s : St) (w : Nat) (up vp : Src) (usize vsize : Nat) (same neg : Bool) (x : Nat) :
+    ((mulTail s w up vp usize vsize same neg).h x).buf.alloc = (s.h x).buf.alloc := by
+  unfold mulTail
+  split <;> simp [mpn_mul_S, St.load]
+
+theorem mulGeneric_alloc (s : St) (w u v usize vsize : Nat) (neg : Bool) (h : usize + vsize ≤ s.ALLOC w) (x : Nat) :
+    ((mulGeneric true s w u v usize vsize neg).h x).buf.alloc = (s.h x).buf.alloc := by
+  unfold mulGeneric
+  simp only []
+  rw [if_neg (by omega)]
+  split
+  · rw [mulTail_alloc]; simp [tmp_copy]
+  · split
+    · rw [mulTail_alloc]; simp [tmp_copy]
+    · rw [mulTail_alloc]
+
+theorem mpz_mul_alloc_keep (s : St) (w u v : Nat) (h : (s.SIZ u).natAbs + (s.SIZ v).natAbs ≤ s.ALLOC w) (x : Nat) :
+    ((mpz_mul s w u v).h x).buf.alloc = (s.h x).buf.alloc := by
+  unfold mpz_mul mul
+  simp only []
+  split
+  · simp
+  · split
+    · rename_i h1
+      have h1' : (s.SIZ v).natAbs = 1 := by simpa using h1
+      rw [MPZ_REALLOC_noop _ _ _ (by omega)]
+      simp [mpn_mul_1, St.load, St.store]
+    · split
+      · rw [MPZ_REALLOC_noop _ _ _ (by omega)]
+        split <;> simp [mpn_mul, St.load]
+      · split
+        · exact mulGeneric_alloc _ _ _ _ _ _ _ (by omega) x
+        · exact mulGeneric_alloc _ _ _ _ _ _ _ (by omega) x
+
+theorem gcd_len_le (a b : Int) (k : Nat) (hb : 0 < b) (hk : b.natAbs < B ^ k) : (natLimbs (Int.gcd a b)).length ≤ k := by
+  apply natLimbs_len_le
+  have : Int.gcd a b ≤ b.natAbs := Nat.le_of_dvd (by omega) (Int.gcd_dvd_natAbs_right a b)
+  omega
+
+
+theorem natAbs_div_le (a g : Int) (hg : 0 < g) (hd : g ∣ a) : (a / g).natAbs ≤ a.natAbs := by
+  obtain ⟨c, hc⟩ := hd
+  rw [hc, Int.mul_ediv_cancel_left _ (by omega), Int.natAbs_mul]
+  exact Nat.le_mul_of_pos_left _ (by omega)
+
+theorem size_ne_zero_of_pos (s : St) (x : Nat) (h : 0 < valOf s x) : (s.h x).size ≠ 0 := by
+  intro e; have := valOf_size_zero s x e; omega
+
+macro "dq" : tactic => `(tactic| first | assumption | (apply Ne.symm; assumption))
+
 end Mpir.AllocSafe6
